@@ -63,6 +63,18 @@ func simpleRaProgram(r *rand.Rand, includes []string) string {
 	return out + "\n"
 }
 
+// addAmbiguousRulesCopy: a second file under the name pattern of one rules file, sorting before it (an editor's
+// auto-save copy): the rules file of that prefix is ambiguous, update and compare refuse it (and write nothing)
+func addAmbiguousRulesCopy(ct *crsTree) {
+	if len(ct.confs) == 0 || !strings.HasPrefix(ct.confs[0], "rules/") {
+		return
+	}
+	real := ct.confs[0]
+	copyName := "rules/#" + strings.TrimPrefix(real, "rules/") + "#"
+	ct.t[copyName] = ct.t[real]
+	ct.decoys = append(ct.decoys, copyName)
+}
+
 func genCRSTree(r *rand.Rand, nRa int) *crsTree {
 	ct := &crsTree{t: Tree{}, rules: map[string]string{}, targets: map[string]ruleTarget{}}
 	nInc := r.Intn(3)
@@ -188,6 +200,12 @@ func genCRSTree(r *rand.Rand, nRa int) *crsTree {
 		"docs/crs-setup-example":                            "# OWASP CRS ver.3.0.0\n",
 		"docs/conf.txt":                                     "# OWASP CRS ver.3.0.0\n",
 		"util/example.conf.disabled":                        "# OWASP CRS ver.3.0.0\n",
+		// hidden entries among the assembly files (a desktop's metadata, a placeholder, an editor's swap file)
+		"regex-assembly/.DS_Store":       "\x00\x00\x00\x01Bud1\n",
+		"regex-assembly/.gitkeep":        "",
+		"regex-assembly/.942100.ra.swp":  "b0VIM 9.0\n",
+		"regex-assembly/include/.keep":   "",
+		"tests/regression/tests/.hidden": "  - test_id: 7\n",
 	}
 	for p, c := range decoys {
 		ct.t[p] = []byte(c)
